@@ -37,9 +37,17 @@ pub struct FileStorage {
 impl FileStorage {
     fn apply_wal_record(file: &mut File, record: WriteAheadLogRecord) -> Result<(), DbError> {
         if record.value.is_empty() {
+            #[cfg(agdb_verif)]
+            crate::verif::fs_event(crate::verif::FsEventKind::RecoverySetLen, record.pos, 0);
             file.set_len(record.pos)?;
         } else {
             file.seek(SeekFrom::Start(record.pos))?;
+            #[cfg(agdb_verif)]
+            crate::verif::fs_event(
+                crate::verif::FsEventKind::RecoveryWrite,
+                record.pos,
+                record.value.len() as u64,
+            );
             file.write_all(&record.value)?;
         }
 
@@ -114,8 +122,12 @@ impl StorageData for FileStorage {
         let mut buffer = vec![0_u8; value_len as usize];
 
         if let Ok(_guard) = self.lock.try_lock() {
+            #[cfg(agdb_verif)]
+            crate::verif::read_event(true);
             Self::read_impl(&self.file, pos, &mut buffer)?;
         } else {
+            #[cfg(agdb_verif)]
+            crate::verif::read_event(false);
             Self::read_impl(&self.open_file()?, pos, &mut buffer)?;
         }
 
@@ -142,6 +154,8 @@ impl StorageData for FileStorage {
             self.wal.insert(new_len, &[])?;
         }
 
+        #[cfg(agdb_verif)]
+        crate::verif::fs_event(crate::verif::FsEventKind::DataSetLen, new_len, 0);
         self.file.set_len(new_len)?;
         self.len = new_len;
         Ok(())
@@ -154,6 +168,12 @@ impl StorageData for FileStorage {
         Self::read_impl(&self.file, pos, &mut buffer)?;
         self.wal.insert(pos, &buffer)?;
         self.file.seek(SeekFrom::Start(pos))?;
+        #[cfg(agdb_verif)]
+        crate::verif::fs_event(
+            crate::verif::FsEventKind::DataWrite,
+            pos,
+            bytes.len() as u64,
+        );
         self.file.write_all(bytes)?;
         self.len = std::cmp::max(current_len, end);
         Ok(())
